@@ -280,6 +280,12 @@ func (tr *translator) returnsFresh(f *ssa.Function) bool {
 			return x.Value == nil
 		case *ssa.Call:
 			callee := x.Call.StaticCallee()
+			if t, ok := tr.byFunc[f]; ok && tr.genOf(t) >= 5 && isExternalCallee(callee) {
+				// generation 5: a slice an external call returned is a read-only value here and in every caller (stores
+				// into memory the function did not allocate are refused), and the externals do not write their arguments
+				// except where the oracle returns the new contents
+				return true
+			}
 			_, isTarget := tr.byFunc[callee]
 			return callee != nil && isTarget && tr.returnsFresh(callee)
 		case *ssa.Extract:
@@ -393,6 +399,11 @@ func (tr *translator) globalIntsOf(f *ssa.Function) []*ssa.Global {
 						for _, g := range tr.globalIntsOf(callee) {
 							set[g] = true
 						}
+					}
+				}
+				if fn := tr.invokeTarget(&x.Call); fn != nil && fn != f {
+					for _, g := range tr.globalIntsOf(fn) {
+						set[g] = true
 					}
 				}
 			}
